@@ -190,6 +190,8 @@ func (rn *runner) random(r *rand.Rand) {
 			n := big[(i+int(rn.f.Seed))%3]
 			s := []int32{0, 7, 50, 1000, 5000, 999, 1001}[r.Intn(7)]
 			rn.do(scenario{RPC: rp.Name, IDs: genIDs(r, n), Sizes: []int32{s}, Class: "enumerate-big"}, rn.tie)
+			// the 1000 cap is only visible with more than 1000 items and a larger request
+			rn.do(scenario{RPC: rp.Name, IDs: genIDs(r, 1001+r.Intn(3)), Sizes: []int32{[]int32{5000, 1001, int32(1002 + r.Intn(1<<20))}[r.Intn(3)]}, Class: "enumerate-big"}, rn.tie)
 		}
 	}
 	// 2. page size varying per page
